@@ -33,7 +33,8 @@ CONSTANTS G,            \* span grid of the fine alphabet (depth-1 plans): posit
           HeadWords,    \* 32-bit words of the first/last 64 bytes edited by HeaderEdit (fine alphabet)
           NestDepths,   \* Nest(n)
           Nth,          \* ReplaceTokenClass on the n-th occurrence alone (0-based): the n of the fine alphabet
-          MaxDepth      \* 1: plans of one operator; 2: also every pair over the coarse alphabet
+          MaxDepth,     \* 1: plans of one operator; 2: also every pair over the coarse alphabet
+          Members       \* archive-aware plans: indices of the zip/jar/egg/whl entries whose content is mutated
 
 \* one shape for every operator, so that plans are plain JSON: integers i,j,k and strings x,y,z
 Op(o, i, j, k, x, y, z) == [op |-> o, i |-> i, j |-> j, k |-> k, x |-> x, y |-> y, z |-> z]
@@ -97,47 +98,66 @@ CoarseOps ==
 Absorbing(o) == o.op \in {"Empty", "WhitespaceOnly", "Literal"} \/ (o.op = "Nest" /\ o.y = "bare")
 Terminal1(o) == o.op \in {"Empty", "WhitespaceOnly", "Literal"}
 
-Outcomes == {"Returned"}   \* the only outcome class the specification admits
+\* The only outcome class the specification admits. "Returned" = Extract comes back, within the time and
+\* memory budget, with an inventory and/or an error, AND the inventory is one the engine can consume:
+\* no nil package or finding entry, and ToPURL of every package returns (filesystem.runExtractor and
+\* scalibr.Scan dereference every entry, also next to an error). The harness reports Panic, Timeout,
+\* OOM and BadInventory for the behaviours this specification does not have.
+Outcomes == {"Returned"}
 
-VARIABLES ops,      \* the plan: sequence of operators
+\* operators applied INSIDE an archive member (to its decompressed content, which is then re-packed):
+\* the coarse alphabet plus the degenerate contents of a metadata file
+MemberOps == CoarseOps \cup {Op("Empty", 0, 0, 0, "", "", "")}
+             \cup {Op("ValueLiteral", n, 0, 0, l, "", "") : n \in 0..3, l \in {"empty", "quote"}}
+             \cup {Op("Truncate", i, 16, 0, "", "", "") : i \in {1, 2}}
+
+VARIABLES member,   \* -1: the operators act on the whole file; k >= 0: on the content of the k-th archive entry
+          ops,      \* the plan: sequence of operators
           phase,    \* "plan" | "mutated" | "extracted"
           outcome   \* "none" or an element of Outcomes
-vars == <<ops, phase, outcome>>
+vars == <<member, ops, phase, outcome>>
 
-Init == ops = <<>> /\ phase = "plan" /\ outcome = "none"
+Init == member = -1 /\ ops = <<>> /\ phase = "plan" /\ outcome = "none"
+
+\* archive-aware plan: one operator of MemberOps inside entry k (metadata inside jars, eggs, wheels)
+InMember(k, o) == /\ phase = "plan" /\ ops = <<>> /\ member = -1 /\ MaxDepth >= 1
+                  /\ member' = k /\ ops' = <<o>> /\ UNCHANGED <<phase, outcome>>
 
 \* first operator: any operator of the fine alphabet (or of the coarse one when pairs are explored)
 FirstOps == FineOps \cup (IF MaxDepth >= 2 THEN CoarseOps ELSE {})
 AddFirst(o) == /\ phase = "plan" /\ ops = <<>> /\ MaxDepth >= 1
-               /\ ops' = <<o>> /\ UNCHANGED <<phase, outcome>>
+               /\ ops' = <<o>> /\ UNCHANGED <<member, phase, outcome>>
 \* second operator: both operators from the coarse alphabet
-AddSecond(o) == /\ phase = "plan" /\ Len(ops) = 1 /\ MaxDepth >= 2
+AddSecond(o) == /\ phase = "plan" /\ Len(ops) = 1 /\ MaxDepth >= 2 /\ member = -1
                 /\ ops[1] \in CoarseOps /\ ~Terminal1(ops[1]) /\ ~Absorbing(o)
                 /\ o # ops[1] \/ o.op \in {"DupSpan", "DropSpan", "Truncate", "Nest"}   \* repeating an idempotent operator adds nothing
-                /\ ops' = Append(ops, o) /\ UNCHANGED <<phase, outcome>>
+                /\ ops' = Append(ops, o) /\ UNCHANGED <<member, phase, outcome>>
 \* the plan is applied to a fixture (Go side: every fixture x every required path)
-Apply == /\ phase = "plan" /\ phase' = "mutated" /\ UNCHANGED <<ops, outcome>>
+Apply == /\ phase = "plan" /\ phase' = "mutated" /\ UNCHANGED <<member, ops, outcome>>
 \* the abstract Extract step: it returns (inventory and/or error)
 Extract == /\ phase = "mutated" /\ phase' = "extracted"
            /\ \E r \in Outcomes : outcome' = r
-           /\ UNCHANGED ops
+           /\ UNCHANGED <<member, ops>>
 
 Next == \/ \E o \in FirstOps : AddFirst(o)
         \/ \E o \in CoarseOps : AddSecond(o)
+        \/ \E k \in Members : \E o \in MemberOps : InMember(k, o)
         \/ Apply \/ Extract
 Spec == Init /\ [][Next]_vars
 
 -----------------------------------------------------------------------------
 TypeOK == /\ phase \in {"plan", "mutated", "extracted"}
           /\ Len(ops) <= MaxDepth
-          /\ \A n \in 1..Len(ops) : ops[n] \in FineOps \cup CoarseOps
+          /\ member \in {-1} \cup Members
+          /\ member >= 0 => Len(ops) = 1 /\ ops[1] \in MemberOps
+          /\ \A n \in 1..Len(ops) : ops[n] \in FineOps \cup CoarseOps \cup MemberOps
           /\ Len(ops) = 2 => ops[1] \in CoarseOps /\ ops[2] \in CoarseOps
 \* the property on the model: extraction of any mutated file returns
 OnlyReturned == phase = "extracted" => outcome = "Returned"
 CoarseIsSubGrammar == \A o \in CoarseOps : o.op \in {p.op : p \in FineOps}
 
 \* case emission: one case per plan (the identity plan <<>> included: the unmodified fixture)
-Case == [ops |-> ops, depth |-> Len(ops), allowed |-> Outcomes]
+Case == [member |-> member, ops |-> ops, depth |-> Len(ops), allowed |-> Outcomes]
 Emit == phase = "mutated" => PrintT(ToJson(Case))
 
 \* sanity (must be violated): a plan of depth 2 is reachable / an extraction is reachable
